@@ -78,7 +78,7 @@ func (d *Decl) HasEvent() bool { return len(selectedAll(d.Inputs)) > 0 }
 
 func (d *Decl) Mode() Mode {
 	for _, b := range d.Block {
-		if strings.HasPrefix(b.Column, "trace_") {
+		if strings.HasPrefix(b.Name, "trace_") {
 			return ModeTrace
 		}
 	}
